@@ -91,7 +91,8 @@ def schemaToDecl (ρ : String → FieldDecl) : Schema → FieldDecl
   | .arrAny sz => .seqAny .list (arraySize sz)
   | .arrOf s sz => .seqOf .list (schemaToDecl ρ s) (arraySize sz)
   | .arrPos ss addl sz => .seqPos .list (schemaToDeclL ρ ss) addl (arraySize sz)
-  | .mapAny _ mn mx => .mapAny (mapSize mn mx)
+  -- `if not any([additional_properties, …]): return []` — `minItems`/`maxItems` are dropped too
+  | .mapAny _ _ _ => .mapAny {}
   | .mapOf v mn mx => .mapOf (.string none none none) (schemaToDecl ρ v) (mapSize mn mx)
   | .obj props defaults required addl =>
     .struct (inlineOpts (declRequired (props.map (·.1)) (defaults.map (·.1)) required) addl)
@@ -260,7 +261,9 @@ def issues : Schema → List String
   | .arrAny sz => sizeDropped sz
   | .arrOf s sz => sizeDropped sz ++ issues s
   | .arrPos ss _ sz => sizeDropped sz ++ issuesL ss
-  | .mapAny addlKw _ _ => if addlKw.isSome then ["map-additionalProperties-bool"] else []
+  | .mapAny addlKw mn mx =>
+    (if addlKw.isSome then ["map-additionalProperties-bool"] else [])
+      ++ (if mn.isSome || mx.isSome then ["map-size-dropped"] else [])
   | .mapOf v _ _ => issues v
   | .obj props defaults required addl =>
     objIssues (props.map (·.1)) (defaults.map (·.1)) required addl ++ issuesP props
@@ -291,6 +294,8 @@ def inCodeFragmentP (ps : List (String × Schema)) : Bool := (issuesP ps).isEmpt
     generated as a wrapper class with a single field `wrapped`) -/
 def topIssues : Schema → List String
   | .obj props defaults required addl => issues (.obj props defaults required addl)
+  | .mapAny a mn mx => "top-level-map-ignored" :: issues (.mapAny a mn mx)
+  | .mapOf v mn mx => "top-level-map-ignored" :: issues (.mapOf v mn mx)
   | s => "top-level-wrapped" :: issues s
 
 /-! ### `required` order: the comparison is up to the order of every `required` list -/
